@@ -83,6 +83,9 @@ type C17Scenario struct {
 	ClearFirst int `json:"clear_first,omitempty"`
 	// HandlerLast: the WithUpcastErrorHandler option comes after the WithUpcast options (and the store) instead of before
 	HandlerLast bool `json:"handler_last,omitempty"`
+	// ClearSrcP1 (0 = none): after all registrations, ClearUpcastsForType(source ClearSrcP1-1) removes every
+	// upcaster of that one source type; the upcasters of every other source keep working
+	ClearSrcP1 int `json:"clear_src_p1,omitempty"`
 	Subscribe  bool      `json:"subscribe,omitempty"` // also check SubscribeWithReplay[UC]
 	Store      StoreCfg  `json:"store"`
 	// ClearDuring: another task calls ClearUpcasts while the replay runs. Each event must then be seen
@@ -148,6 +151,9 @@ func genC17(rt *rapid.T) core.Scenario {
 		sc.ClearFirst = rapid.SampledFrom([]int{0, 0, 1, 2}).Draw(rt, "clearFirst")
 	}
 	sc.HandlerLast = sc.ErrHandler && !sc.BySetter && rapid.Bool().Draw(rt, "handlerLast")
+	if len(sc.Edges) > 0 && rapid.IntRange(0, 3).Draw(rt, "clearSrc") == 3 {
+		sc.ClearSrcP1 = sc.Edges[rapid.IntRange(0, len(sc.Edges)-1).Draw(rt, "clearWhich")].From + 1
+	}
 	sc.Subscribe = sc.Typed == 2 && rapid.Bool().Draw(rt, "subscribe")
 	sc.Store = StoreCfg{Kind: rapid.SampledFrom([]string{"mem", "mem", "mem", "sqlite"}).Draw(rt, "store")}
 	if rapid.IntRange(0, 3).Draw(rt, "clearDuring") == 3 {
@@ -276,6 +282,9 @@ func (sc *C17Scenario) Execute(t *testing.T) *core.Outcome {
 				}
 			}
 		}
+		if sc.ClearSrcP1 > 0 {
+			bus.ClearUpcastsForType(c17Name(sc.ClearSrcP1 - 1))
+		}
 		// typed upcasters cannot fail by injection (their function has no error result); they fail on undecodable data
 		if sc.Typed >= 1 {
 			if err := eventbus.RegisterUpcast(bus, func(a UA) UB { applications++; return upAB(a) }); err != nil {
@@ -313,7 +322,7 @@ func (sc *C17Scenario) Execute(t *testing.T) *core.Outcome {
 			for steps := 0; steps < 500; steps++ {
 				idx := -1
 				for i, e := range sc.Edges {
-					if c17Name(e.From) == curT {
+					if c17Name(e.From) == curT && e.From != sc.ClearSrcP1-1 {
 						idx = i
 						break
 					}
@@ -432,7 +441,7 @@ func (sc *C17Scenario) Execute(t *testing.T) *core.Outcome {
 				for steps := 0; steps < 500 && ok; steps++ {
 					idx := -1
 					for j, e := range sc.Edges {
-						if c17Name(e.From) == curT {
+						if c17Name(e.From) == curT && e.From != sc.ClearSrcP1-1 {
 							idx = j
 							break
 						}
